@@ -502,6 +502,17 @@ def parseC (table : List NameInfo) (expr : String) : Except CErr (Option Expr) :
     | .error e => .error e
     | .ok r => .ok (some r)
 
+/-- every count of a `{…}` is a plain decimal number: a token after `{` or `,` that starts with a digit consists of
+    ASCII digits only (what the documented grammar allows; `int()` of the code also reads `1_0`) -/
+def plainToks : List String → Bool
+  | a :: b :: r => (!((a == "{" || a == ",") && startsWithDigit b) || isNumTok b) && plainToks (b :: r)
+  | _ => true
+
+/-- the side condition of `parse_agrees` (`Props/C06.lean`), decidable -/
+def PlainNumbers (s : String) : Prop := plainToks (tokenize s) = true
+
+instance (s : String) : Decidable (PlainNumbers s) := inferInstanceAs (Decidable (_ = true))
+
 /-- the parsed expression read as a regular expression; the empty expression matches the empty sequence only -/
 def contentRE : Option Expr → RE
   | none => RE.eps
